@@ -124,7 +124,7 @@ var kindsFor = map[string][]string{
 	"C17": {"incomplete-cache-reused", "failed-run-no-error", "complete-cache-not-reused"},
 	"C18": {"profile-set"},
 	"C16": {"panic", "silent-truncation", "bad-name", "not-monotone", "cross-function"},
-	"C08": {"handover-mismatch"},
+	"C08": {"handover-mismatch", "nil-but-not-in-force"},
 	"C09": {"nil-but-not-in-force", "failed-load-left-state", "probe-changed-state"},
 	"C10": {"nil-but-not-in-force", "thread-not-covered", "flag-mismatch"},
 	"C11": {"failed-load-left-state", "nnp-wrong-thread"},
